@@ -146,10 +146,13 @@ def first_divergence(*trajs):
   return None
 
 
-def compare(types, exp, got, tol_init, tol_step):
+def compare(types, exp, got, tol_init, tol_step, upto=None):
   """compare two observed trajectories step by step; returns (mismatch | None, diverged_at, worst)
   where mismatch = dict(step, field, index, expected, got, err, scale).  A non-finite value before
   any divergence is a mismatch (a NaN is not the transform / permutation / part of anything)."""
+  if upto is not None:
+    exp = {k: v[:upto + 1] for k, v in exp.items()}
+    got = {k: v[:upto + 1] for k, v in got.items()}
   got = align_quats(types, exp, got)
   div = first_divergence(exp, got)
   T = exp['qd'].shape[0] if div is None else div
@@ -374,7 +377,7 @@ def eval_transform(case):
   o = r.run(pipe, n, r.gravity, q, qd, ctrl)
   og = r.run(pipe, n, qrot(r.gravity, g[3:]), qg, qdg, ctrl)
   exp = xform_obs(r.types, o, g)
-  mis, div, worst = compare(r.types, exp, og, TOL_STEP, TOL_STEP)
+  mis, div, worst = compare(r.types, exp, og, TOL_STEP, TOL_STEP, case.get('compare_steps'))
   info = dict(diverged=div is not None, worst=worst, types=r.types, o=o, og=og, qg=qg, qdg=qdg)
   # kinematics on the implementation: forward(q_g) = g o forward(q)
   kin, king = o['kin'], og['kin']
@@ -406,7 +409,7 @@ def eval_perm(case):
   o = r.run(pipe, n, r.gravity, q, qd, ctrl)
   exp = perm_obs(r.types, order, o)
   op = rp.run(pipe, n, rp.gravity, exp['q'][0], exp['qd'][0], ctrl)
-  mis, div, worst = compare(rp.types, exp, op, TOL_KIN, TOL_STEP)
+  mis, div, worst = compare(rp.types, exp, op, TOL_KIN, TOL_STEP, case.get('compare_steps'))
   info = dict(diverged=div is not None, worst=worst, types=r.types)
   kin = o['kin'][order]
   if not np.allclose(kin, op['kin'], atol=TOL_KIN * (1 + np.abs(kin).max()), rtol=0):
@@ -448,7 +451,7 @@ def eval_merge(case):
   oab = rab.run(pipe, n, rab.gravity, np.concatenate([A('q_a'), A('q_b')]),
                 np.concatenate([A('qd_a'), A('qd_b')]), np.concatenate([A('ctrl_a'), A('ctrl_b')]))
   exp = cat_obs(oa, ob)
-  mis, div, worst = compare(rab.types, exp, oab, TOL_KIN, TOL_MERGE[pipe])
+  mis, div, worst = compare(rab.types, exp, oab, TOL_KIN, TOL_MERGE[pipe], case.get('compare_steps'))
   info = dict(diverged=div is not None, worst=worst, types=rab.types)
   if mis is not None:
     part = 'A' if (mis['index'][0] < (len(ra.types) if mis['field'] in ('pos', 'rot', 'ang', 'vel') else
@@ -527,6 +530,8 @@ def _shrink_variants(doc, q, qd, ctrl):
 def _build(kind, pipe, nsteps, opts, docs, states, extra):
   """assemble an evaluable case from documents (meta level) and states"""
   case = dict(clause=kind, pipeline=pipe, nsteps=nsteps, opts=jsonable(opts), docs=jsonable(docs))
+  if extra.get('compare_steps') is not None:
+    case['compare_steps'] = int(extra['compare_steps'])
   if kind == 'merge':
     (qa, qda, ca), (qb, qdb, cb) = states
     xa, xb = doc_xml(docs[0], opts), doc_xml(docs[1], opts)
@@ -653,7 +658,7 @@ def unit(args):
       st['perm_skipped_no_siblings'] += 1
     else:
       q, qd, ctrl, _ = per[0]
-      case = _build('perm', pipe, min(nsteps, 3), opts, [doc], [(q, qd, ctrl)], dict(order=prm[1]))
+      case = _build('perm', pipe, nsteps, opts, [doc], [(q, qd, ctrl)], dict(order=prm[1], compare_steps=min(nsteps, 3)))
       f, info = eval_perm(case)
       st['evals'] += 1; st['cases']['perm'] += 1
       st['diverged']['perm'] += int(info['diverged']); st['worst']['perm'] = max(st['worst']['perm'], info['worst'])
@@ -661,7 +666,7 @@ def unit(args):
         res['failures'].append((case, f))
   # ---- (d) components
   (qa, qda, ca, _), (qb, qdb, cb, _) = states[0][-1], states[1][-1]
-  case = _build('merge', pipe, min(nsteps, 3), opts, docs, [(qa, qda, ca), (qb, qdb, cb)], {})
+  case = _build('merge', pipe, nsteps, opts, docs, [(qa, qda, ca), (qb, qdb, cb)], dict(compare_steps=min(nsteps, 3)))
   f, info = eval_merge(case)
   st['evals'] += 1; st['cases']['merge'] += 1
   st['diverged']['merge'] += int(info['diverged']); st['worst']['merge'] = max(st['worst']['merge'], info['worst'])
@@ -675,7 +680,7 @@ def unit(args):
 def n_jobs():
   if os.environ.get('VERIF_JOBS'):
     return max(1, int(os.environ['VERIF_JOBS']))
-  return max(1, min(8, (os.cpu_count() or 2) // 2))
+  return max(1, min(12, (os.cpu_count() or 2) * 3 // 4))
 
 
 def run_units(ctx, salt, n_pairs, nsteps, n_states, deadline=None):
